@@ -4,7 +4,8 @@ From KaiV Require Export Run.Prelude Model.Binder Model.BinderSpec.
 Record case := {
   k_sc : scen;                       (* the request's spec + the pod's immutable parts + oracles *)
   k_init : store;                    (* projection of the real store before the reconcile *)
-  k_faults : list (nat * fault);     (* injected: call number -> Fail / Crash (everything else Ok) *)
+  k_faults : list (nat * fault);     (* injected: call number -> Fail <kind> / Crash (everything else Ok) *)
+  k_env : list (nat * list estep);   (* other actors: call number -> what they did to the store right before that call *)
   k_dp : list (option nat);          (* the device plugin's answer to the k-th wait *)
   k_orders : list (list gid);        (* observed group order of the k-th SyncForNode *)
   (* observed on the real code *)
@@ -15,8 +16,9 @@ Record case := {
   k_hist : list nat;                 (* the consumer's server-side node after every call *)
   k_mark : option (nat * nat);       (* call numbers at which Binder.Rollback was entered / returned *)
   k_panicked : bool;
-  (* a second, fault-free reconcile from the observed final store *)
-  k_rec : option (store * bool)      (* its final store and returned error *)
+  (* afterwards, on the real store: bare reservation pods report their device, one fault-free
+     resourcereservation Sync, then a fault-free second reconcile *)
+  k_rec : option (store * bool)      (* the final store of that and the error the second reconcile returned *)
 }.
 
 Fixpoint lookup_fault (l : list (nat * fault)) (k : nat) : fault :=
@@ -29,6 +31,11 @@ Fixpoint nth_opt {A} (l : list A) (k : nat) : option A :=
   | [], _ => None
   | x :: _, O => Some x
   | _ :: r, S j => nth_opt r j
+  end.
+Fixpoint env_of (l : list (nat * list estep)) (k : nat) : list estep :=
+  match l with
+  | [] => []
+  | (i, e) :: r => if i =? k then e ++ env_of r k else env_of r k
   end.
 Definition dp_of (l : list (option nat)) (k : nat) : option nat :=
   match nth_opt l k with Some a => a | None => None end.
@@ -56,7 +63,7 @@ Definition cobs_eqb (a b : cobs) : bool :=
   | CGetCM x, CGetCM y | CDeleteCM x, CDeleteCM y => cmref_eqb x y
   | CList x, CList y => lsel_eqb x y
   | CCreateRsv x, CCreateRsv y | CWatchRsv x, CWatchRsv y => x =? y
-  | CCreateCM x o, CCreateCM y o' => cmref_eqb x y && Bool.eqb o o'
+  | CCreateCM x o, CCreateCM y o' => cmref_eqb x y && (o =? o')
   | CPatchLabels p m, CPatchLabels p' m' => opt_nat_eqb p p' && list_nat_eqb m m'
   | CRemoveLabels p m, CRemoveLabels p' m' => Bool.eqb p p' && list_nat_eqb m m'
   | CPatchRecv t, CPatchRecv t' => rtype_eqb t t'
@@ -82,7 +89,7 @@ Definition canon (st : store) : store :=
           (cm_cap st) (cm_evar st) (br st) (node_ok st).
 
 Definition run_case (k : case) : state * (nat * bool) :=
-  run (k_sc k) (lookup_fault (k_faults k)) (dp_of (k_dp k)) (ord_of (k_orders k)) (k_init k).
+  run (k_sc k) (lookup_fault (k_faults k)) (env_of (k_env k)) (dp_of (k_dp k)) (ord_of (k_orders k)) (k_init k).
 
 Definition mark_eqb (s : state) (m : option (nat * nat)) : bool :=
   match s_mark s, m with
@@ -123,37 +130,178 @@ Definition obs_cleanup_unfaulted (k : case) : bool :=
 Definition attemptable (k : case) : bool :=
   wf_shape (k_sc k) && sc_k8s_ok (k_sc k) && (if sc_fraction (k_sc k) then sc_cmann (k_sc k) else true)
   && node_ok (k_init k) && opt_is_some (br (k_init k)) && self_alive (k_init k)
-  && pphase_eqb (p_phase (self (k_init k))) PhPending.
+  && pphase_eqb (p_phase (self (k_init k))) PhPending && negb (p_term (self (k_init k))).
 
-Definition init_succeeded (k : case) : bool :=
-  match br (k_init k) with Some b => brphase_eqb (b_phase b) BSucceeded | None => false end.
+Definition init_succeeded (k : case) : bool := br_succeeded (k_init k).
 
-Definition monitor_ok (k : case) : bool :=
+(** *** what the other actors did, and when *)
+Definition env_has (f : estep -> bool) (k : case) : bool :=
+  existsb (fun ie => existsb f (snd ie)) (k_env k).
+(** ... at a call number > p (an entry at number i happens right BEFORE call i) *)
+Definition env_has_after (p : nat) (f : estep -> bool) (k : case) : bool :=
+  existsb (fun ie => (p <? fst ie) && existsb f (snd ie)) (k_env k).
+Definition env_has_upto (p : nat) (f : estep -> bool) (k : case) : bool :=
+  existsb (fun ie => (fst ie <=? p) && existsb f (snd ie)) (k_env k).
+Definition env_none (k : case) : bool := negb (env_has (fun _ => true) k).
+Definition is_replace (e : estep) : bool := match e with EvRemove | EvRecreate => true | _ => false end.
+Definition is_recreate (e : estep) : bool := match e with EvRecreate => true | _ => false end.
+Definition is_bind_else (e : estep) : bool := match e with EvBindElsewhere => true | _ => false end.
+Definition is_del_rsv (e : estep) : bool := match e with EvDeleteRsv _ => true | _ => false end.
+
+Fixpoint index_of {A} (f : A -> bool) (l : list A) (i : nat) : option nat :=
+  match l with
+  | [] => None
+  | x :: r => if f x then Some i else index_of f r (S i)
+  end.
+(** the call number of this reconcile's successful binding call *)
+Definition bind_pos (k : case) : option nat := index_of is_bind_ok (k_log k) 0.
+(** the node the reconciler's own Get of the pod showed (0 if it saw no pod) *)
+Definition saw_node (k : case) : nat :=
+  match index_of (fun e => match e with (CGetPod PSelf, OkO) => true | _ => false end) (k_log k) 0 with
+  | Some j => match nth_opt (k_hist k) j with Some n => if n =? 3 then 0 else n | None => 0 end
+  | None => 0
+  end.
+Definition wrote_cond_true (k : case) : bool :=
+  existsb (fun e => match e with (CPatchPodCond true, OkO) => true | _ => false end) (k_log k).
+
+(** the side objects as far as nobody else deleted them: with a reservation pod
+    deleted by another actor the device indices cannot be checked any more *)
+Definition side_ok_env (k : case) (st : store) : bool :=
+  if env_has is_del_rsv k then
+    opt_rtype_eqb (p_recv (self st)) (Some (recv_type (k_sc k)))
+    && (if sc_fraction (k_sc k) then labels_ok (k_sc k) (self st) && opt_is_some (cm_cap st) && opt_is_some (cm_evar st)
+        else true)
+  else side_ok (k_sc k) st.
+
+Definition eligible (k : case) : bool :=
+  attemptable k && unbound (canon (k_init k)) && negb (init_succeeded k).
+
+(** *** behaviours of the code as it is that the clauses below do not accept;
+    they are reported by [run_flags] (flags 1-2, each a listed finding) and left
+    out of [monitor_ok] *)
+(** 1: the reconciler read the pod as already bound to ANOTHER node and reported success for the request's
+    node (request Succeeded and / or PodBound=True "Pod bound successfully to node <selected>") *)
+Definition flag_bound_elsewhere_succeeded (k : case) : bool :=
+  negb (init_succeeded k) && (saw_node k =? 2) && (binds (k_log k) =? 0)
+  && (br_succeeded (k_final k) || wrote_cond_true k).
+(** 2: the request is invalid (a shared-GPU request without SelectedGPUGroups), the reconciler deleted it -
+    and wrote PodBound=True ("Pod bound successfully") on the pod it did not bind: the Delete's nil error
+    is taken for the outcome of the bind *)
+Definition deleted_invalid (k : case) : bool :=
+  existsb (fun e => match e with (CDeleteBR, OkO) => true | _ => false end) (k_log k).
+Definition flag_cond_true_deleted_invalid (k : case) : bool :=
+  wrote_cond_true k && (binds (k_log k) =? 0) && (saw_node k =? 0) && negb (br_succeeded (k_final k))
+  && deleted_invalid k.
+
+(** somebody deleted / replaced the pod after this reconcile's binding call went through *)
+Definition replaced_after_bind (k : case) : bool :=
+  match bind_pos k with Some p => env_has_after p is_replace k | None => false end.
+
+
+(** [hist] entries allowed when nobody else binds / removes the pod *)
+Definition hist_ok_entry (k : case) (n : nat) : bool :=
+  (n =? 0) || (n =? 1)
+  || ((n =? 2) && env_has is_bind_else k)
+  || ((n =? 3) && env_has is_replace k).
+
+(** 1. all or nothing *)
+Definition m_all_or_nothing (k : case) : bool :=
   let init := canon (k_init k) in
   let fin := canon (k_final k) in
   let crashed := has_crash (k_faults k) (k_log k) in
-  negb (k_panicked k)
-  (* 1. all or nothing *)
-  && (if attemptable k && unbound init && negb (init_succeeded k) then
-        (bound fin && side_ok (k_sc k) fin)
-        || (unbound fin && reported fin crashed (k_err k)
+  if eligible k then
+    match bind_pos k with
+    | Some p =>
+        (* this reconcile's binding call went through: the pod sits on the request's node with its side
+           objects, unless somebody deleted / replaced it afterwards *)
+        env_has_after p is_replace k
+        || (bound fin && side_ok_env k fin)
+    | None =>
+        (* it did not: unless the reconciler read the pod as already bound (clause 3), the request is not
+           Succeeded, the failure is visible, and nothing of the attempt is left *)
+        negb (saw_node k =? 0)
+        || (negb (br_succeeded fin)
+            && (reported fin crashed (k_err k) || nothing_done (k_log k))
             && (if obs_cleanup_unfaulted k then clean init fin else true))
-      else true)
-  (* 2. never elsewhere, never twice *)
-  && (if unbound init then forallb (fun n => (n =? 0) || (n =? 1)) (k_hist k) else true)
-  && (binds (k_log k) <=? 1) && negb (existsb is_bind_elsewhere (k_log k))
-  (* 3. no-op *)
-  && (if init_succeeded k then store_eqb init fin && (List.length (k_log k) =? 1) else true)
+    end
+  else true.
+
+(** 1b. request Succeeded (by this reconcile) => the stored pod has the request's node *)
+Definition m_succeeded_bound_here (k : case) : bool :=
+  let fin := canon (k_final k) in
+  if negb (init_succeeded k) && br_succeeded fin then
+    (self_alive fin && (p_node (self fin) =? 1))
+    || replaced_after_bind k || flag_bound_elsewhere_succeeded k
+  else true.
+
+(** 1c. PodBound=True (written by this reconcile) => the stored pod has the request's node *)
+Definition m_cond_true_bound (k : case) : bool :=
+  let fin := canon (k_final k) in
+  if wrote_cond_true k && opt_bool_eqb (p_cond (self fin)) (Some true) && self_alive fin then
+    (p_node (self fin) =? 1) || replaced_after_bind k
+    || flag_bound_elsewhere_succeeded k || flag_cond_true_deleted_invalid k
+  else true.
+
+(** 2. never elsewhere, never twice *)
+Definition m_never_elsewhere (k : case) : bool :=
+  (if unbound (canon (k_init k)) then forallb (hist_ok_entry k) (k_hist k) else true)
+  && (binds (k_log k) <=? 1) && negb (existsb is_bind_elsewhere (k_log k)).
+
+(** 3. no-op *)
+Definition m_noop (k : case) : bool :=
+  let init := canon (k_init k) in
+  let fin := canon (k_final k) in
+  (if init_succeeded k then (if env_none k then store_eqb init fin else true) && (List.length (k_log k) =? 1) else true)
   && (if self_alive init && negb (p_node (self init) =? 0)
-      then same_binding_state init fin && (binds (k_log k) =? 0) else true)
-  (* 4. recovery *)
-  && match k_rec k with
-     | Some (st2, e2) =>
-         if attemptable k && unbound init && negb (init_succeeded k) && opt_is_some (br (k_final k))
-         then bound (canon st2) && side_ok (k_sc k) (canon st2)
-         else true
-     | None => true
-     end.
+      then (if env_none k then same_binding_state init fin else true)
+           && ((binds (k_log k) =? 0) || env_has is_recreate k) else true).
+
+(** 4. recovery: after one fault-free sync and a fault-free retry *)
+Definition m_recovery (k : case) : bool :=
+  let init := canon (k_init k) in
+  let fin := canon (k_final k) in
+  match k_rec k with
+  | Some (st2, e2) =>
+      let f2 := canon st2 in
+      (* a pod that can still be bound is bound, with its side objects *)
+      (if eligible k && unbound fin && negb (p_term (self fin)) && opt_is_some (br fin) && negb (br_succeeded fin)
+          && node_ok fin
+       then bound f2 && side_ok (k_sc k) f2 else true)
+      (* a pod that is not on the request's node keeps nothing of the failed attempt *)
+      && (if eligible k && (binds (k_log k) =? 0) && negb (bound f2) && obs_cleanup_unfaulted k && (saw_node k =? 0)
+          then clean init f2 else true)
+      (* no reservation pod without a live consumer carrying its group *)
+      && forallb (fun r => negb (wf_shape (k_sc k)) || negb (p_rsv r) ||
+                   match p_plain r with
+                   | Some g => existsb (fun q => negb (p_rsv q) && active_phase q
+                                                 && (opt_nat_eqb (p_plain q) (Some g) || mem_nat g (p_multi q)))
+                                       (all_pods f2)
+                   | None => true
+                   end) (others f2)
+  | None => true
+  end.
+
+Definition clauses (k : case) : list bool :=
+  [negb (k_panicked k); m_all_or_nothing k; m_succeeded_bound_here k; m_cond_true_bound k;
+   m_never_elsewhere k; m_noop k; m_recovery k].
+Definition monitor_ok (k : case) : bool := forallb (fun b => b) (clauses k).
+
+Definition flags_of (k : case) : list nat :=
+  (if flag_bound_elsewhere_succeeded k then [1] else [])
+  ++ (if flag_cond_true_deleted_invalid k then [2] else []).
 
 Definition run_mismatches (cs : list (nat * case)) : list nat := failing (fun k => negb (model_agrees k)) cs.
 Definition run_monitor (cs : list (nat * case)) : list nat := failing (fun k => negb (monitor_ok k)) cs.
+(** every flag is reported for the first case of the batch that shows it (the flags are listed findings:
+    one witness per batch is enough; [monitor_ok] is what judges every case) *)
+Fixpoint first_flags (seen : list nat) (cs : list (nat * case)) : list (nat * list nat) :=
+  match cs with
+  | [] => []
+  | (i, k) :: r =>
+      let fresh := filter (fun f => negb (mem_nat f seen)) (flags_of k) in
+      match fresh with
+      | [] => first_flags seen r
+      | _ => (i, fresh) :: first_flags (fresh ++ seen) r
+      end
+  end.
+Definition run_flags (cs : list (nat * case)) : list (nat * list nat) := first_flags [] cs.
